@@ -15,6 +15,7 @@ import (
 
 	"github.com/prometheus/client_golang/prometheus"
 	"github.com/prometheus/common/model"
+	"pgregory.net/rapid"
 
 	"github.com/cloudflare/pint/internal/config"
 
@@ -60,6 +61,30 @@ var scratchBase = func() string {
 // Repo is a scratch git repository holding a History, with "feature" checked out.
 type Repo struct {
 	Dir string
+	// Names of the base and of the checked-out feature branch, and how the real binary is told
+	// about the base branch (see Branches).
+	Names Branches
+}
+
+// Branches names the two branches of a scratch repository.
+type Branches struct {
+	Base string `json:"base"` // e.g. main, master
+	Head string `json:"head"` // e.g. feature, fix/main, user/x/main
+	// BaseVia: "flag" = `--base-branch <Base>`; "config" = `ci { baseBranch = "<Base>" }` in the
+	// configuration file; "origin" = `ci { baseBranch = "origin/<Base>" }` with a remote-tracking
+	// ref refs/remotes/origin/<Base> pointing at the base branch (as on a CI checkout).
+	BaseVia string `json:"base_via"`
+}
+
+// DefaultBranches is what Build uses.
+var DefaultBranches = Branches{Base: BaseBranch, Head: HeadBranch, BaseVia: "flag"}
+
+// BaseRef is the revision pint is given as its base branch.
+func (b Branches) BaseRef() string {
+	if b.BaseVia == "origin" {
+		return "origin/" + b.Base
+	}
+	return b.Base
 }
 
 func (r *Repo) Close() {
@@ -86,7 +111,7 @@ func gitIn(dir string, stdin []byte, args ...string) ([]byte, error) {
 // fastImport renders the history as a git fast-import stream: every commit
 // replaces the whole tree (deleteall + all files), so git itself works out
 // adds / deletes / renames exactly as it would for commits made by hand.
-func fastImport(h History) []byte {
+func fastImport(h History, nm Branches) []byte {
 	var b bytes.Buffer
 	mark := 0
 	n := 0
@@ -113,23 +138,32 @@ func fastImport(h History) []byte {
 	}
 	last := 0
 	for _, c := range h.Base {
-		last = commit(BaseBranch, last, c)
+		last = commit(nm.Base, last, c)
 	}
 	fork := last
 	last = fork
 	for _, c := range h.Branch {
-		last = commit(HeadBranch, last, c)
+		last = commit(nm.Head, last, c)
 	}
 	last = fork
 	for _, c := range h.MainAfter {
-		last = commit(BaseBranch, last, c)
+		last = commit(nm.Base, last, c)
 	}
 	b.WriteString("done\n")
 	return b.Bytes()
 }
 
-// Build creates the repository.
-func Build(h History) (*Repo, error) {
+// Build creates the repository with the default branch names.
+func Build(h History) (*Repo, error) { return BuildNamed(h, DefaultBranches) }
+
+// BuildNamed creates the repository with the given branch names.
+func BuildNamed(h History, nm Branches) (*Repo, error) {
+	if nm.Base == "" || nm.Head == "" || nm.Base == nm.Head {
+		return nil, fmt.Errorf("bad branch names %+v", nm)
+	}
+	if nm.BaseVia == "" {
+		nm.BaseVia = "flag"
+	}
 	if err := h.Verify(); err != nil {
 		return nil, err
 	}
@@ -137,9 +171,9 @@ func Build(h History) (*Repo, error) {
 	if err != nil {
 		return nil, err
 	}
-	r := &Repo{Dir: dir}
+	r := &Repo{Dir: dir, Names: nm}
 	steps := [][]string{
-		{"init", "-q", "-b", BaseBranch, "--template=", "."},
+		{"init", "-q", "-b", nm.Base, "--template=", "."},
 	}
 	for _, s := range steps {
 		if _, err := gitIn(dir, nil, s...); err != nil {
@@ -147,13 +181,19 @@ func Build(h History) (*Repo, error) {
 			return nil, err
 		}
 	}
-	if _, err := gitIn(dir, fastImport(h), "fast-import", "--quiet", "--done"); err != nil {
+	if _, err := gitIn(dir, fastImport(h, nm), "fast-import", "--quiet", "--done"); err != nil {
 		r.Close()
 		return nil, err
 	}
-	if _, err := gitIn(dir, nil, "-c", "advice.detachedHead=false", "checkout", "-q", "-f", HeadBranch); err != nil {
+	if _, err := gitIn(dir, nil, "-c", "advice.detachedHead=false", "checkout", "-q", "-f", nm.Head); err != nil {
 		r.Close()
 		return nil, err
+	}
+	if nm.BaseVia == "origin" {
+		if _, err := gitIn(dir, nil, "update-ref", "refs/remotes/origin/"+nm.Base, "refs/heads/"+nm.Base); err != nil {
+			r.Close()
+			return nil, err
+		}
 	}
 	// the work tree must now be exactly the HEAD tree of the model
 	for _, f := range h.Head() {
@@ -205,7 +245,7 @@ func (r *Repo) DiscoverFiltered(maxCommits int, include, exclude []string) (res 
 		res.Err = fmt.Errorf("glob finder: %w", err)
 		return res
 	}
-	entries, err = discovery.NewGitBranchFinder(git.RunGit, filter, BaseBranch, maxCommits, parser.PrometheusSchema, model.UTF8Validation, nil).Find(entries)
+	entries, err = discovery.NewGitBranchFinder(git.RunGit, filter, r.Names.BaseRef(), maxCommits, parser.PrometheusSchema, model.UTF8Validation, nil).Find(entries)
 	if err != nil {
 		res.Err = fmt.Errorf("git branch finder: %w", err)
 		return res
@@ -237,6 +277,9 @@ func (r *Repo) RunCI(bin, configHCL string) (reports []JSONReport, exit int, std
 	}
 	defer os.RemoveAll(side)
 	args := []string{"--no-color"}
+	if r.Names.BaseVia != "flag" {
+		configHCL = fmt.Sprintf("ci {\n  baseBranch = %q\n  maxCommits = 50\n}\n", r.Names.BaseRef()) + configHCL
+	}
 	if configHCL != "" {
 		cfg := filepath.Join(side, "pint.hcl")
 		if err := os.WriteFile(cfg, []byte(configHCL), 0o644); err != nil {
@@ -245,7 +288,11 @@ func (r *Repo) RunCI(bin, configHCL string) (reports []JSONReport, exit int, std
 		args = append(args, "--config", cfg)
 	}
 	out := filepath.Join(side, "out.json")
-	args = append(args, "ci", "--base-branch", BaseBranch, "--json", out)
+	args = append(args, "ci")
+	if r.Names.BaseVia == "flag" {
+		args = append(args, "--base-branch", r.Names.Base)
+	}
+	args = append(args, "--json", out)
 	cmd := exec.Command(bin, args...)
 	cmd.Dir = r.Dir
 	var errb bytes.Buffer
@@ -303,4 +350,26 @@ func (c *CIChecks) Names(e discovery.Entry) []string {
 	}
 	sort.Strings(out)
 	return out
+}
+
+// branch name vocabularies for GenBranches
+var (
+	headNames = []string{"feature", "fix/main", "user/x/main", "main2", "xmain", "release/1.0", "fix/master", "topic/feature"}
+	baseNames = []string{"main", "master"}
+	baseVias  = []string{"flag", "config", "origin"}
+)
+
+// GenBranches draws branch names: the feature branch is never the base branch, but it may
+// end in "/<base>", contain the base name, or look like a release branch.
+func GenBranches(t *rapid.T) Branches {
+	return Branches{
+		Base:    baseNames[rapid.IntRange(0, len(baseNames)-1).Draw(t, "basebranch")],
+		Head:    headNames[rapid.IntRange(0, len(headNames)-1).Draw(t, "headbranch")],
+		BaseVia: baseVias[rapid.IntRange(0, len(baseVias)-1).Draw(t, "basevia")],
+	}
+}
+
+// EndsInBase: the feature branch name ends in "/<base branch name>".
+func (b Branches) EndsInBase() bool {
+	return len(b.Head) > len(b.Base) && b.Head[len(b.Head)-len(b.Base)-1:] == "/"+b.Base
 }
